@@ -856,7 +856,8 @@ class Standard(Output):
                 y = np.zeros([len(yy), F], 'float')
             y[:, f] = yy
         if self.show_acc:
-            y = np.nan_to_num(y)
+            # Missing scores do not contribute to the sum; infinite scores remain infinite
+            y = np.nan_to_num(y, posinf=np.inf, neginf=-np.inf)
             y = np.cumsum(y, axis=0)
         return x, y, xname, ynames, None
 
@@ -1520,7 +1521,8 @@ class ObsFcst(Output):
 
         labels = ["obs"] + labels
         if self.show_acc:
-            y = np.nan_to_num(y)
+            # Missing scores do not contribute to the sum; infinite scores remain infinite
+            y = np.nan_to_num(y, posinf=np.inf, neginf=-np.inf)
             y = np.cumsum(y, axis=0)
         return x, y, axis.name(), labels, None
 
